@@ -27,9 +27,13 @@ for name in sorted(os.listdir(os.path.join(V, "seeded"))):
                 print(name, "DOES NOT APPLY")
                 continue
         env = dict(os.environ, VERIF_REPO=wt)
-        out = subprocess.run([os.path.join(V, "check"), prop], cwd=V, env=env, stdout=subprocess.PIPE, stderr=subprocess.STDOUT).stdout.decode(errors="replace")
-        sigs = re.findall(r"^  signature: (\S+)", out, re.M) + re.findall(r"^note: further new signature (\S+)", out, re.M)
-        meta["check_result"] = {"cmd": "VERIF_REPO=<scratch worktree of /repo HEAD + patch> ./check %s --tier quick" % prop, "caught": bool(sigs), "caught_by": sigs[:8],
+        # a change seeded for one property may be the business of another property's check (meta.json "check_props")
+        props = meta.get("check_props", [prop])
+        sigs, out = [], ""
+        for pr in props:
+            out = subprocess.run([os.path.join(V, "check"), pr], cwd=V, env=env, stdout=subprocess.PIPE, stderr=subprocess.STDOUT).stdout.decode(errors="replace")
+            sigs += re.findall(r"^  signature: (\S+)", out, re.M) + re.findall(r"^note: further new signature (\S+)", out, re.M)
+        meta["check_result"] = {"cmd": "VERIF_REPO=<scratch worktree of /repo HEAD + patch> ./check %s --tier quick" % " / ".join(props), "caught": bool(sigs), "caught_by": sigs[:8],
                                 "summary_line": out.strip().splitlines()[-1][:200] if out.strip() else ""}
         json.dump(meta, open(meta_p, "w"), indent=1)
         print(name, "CAUGHT" if sigs else "MISSED", sigs[:3])
